@@ -5,7 +5,8 @@ PROPERTY = "C01"
 LEVEL = "model_checking"
 RULE = ("BFS over histories of public mutators (dict and list surface, arguments from a scalar/container "
         "pool) issued on the root and on retained child handles up to depth 3, plus navigation events and a wholesale "
-        "rewrite of the resource by an outside writer between two mutators; every "
+        "rewrite of the resource by an outside writer between two mutators, and mutators whose save fails once (ENOSPC at "
+        "the atomic replace) followed by more mutators through the same objects; every "
         "history replayed on a fresh world of the real class; states merged by a structural hash of the "
         "object graph + reference state; non-trivial = distinct reached states (digest)")
 BOUNDS = {"quick": "18 classes x 2 initial contents, depth 2 (core values), depth 3 for JSONDict/JSONList/MemoryBufferedJSONDict/BufferedJSONList; JSON and Buffered families also in the in-place and write_concern write modes (threading off)",
@@ -22,6 +23,14 @@ ALT = {"dict": {"a": {"b": [7, {"c": 8}]}, "x": 1}, "list": [7, [8, {"a": 9}], {
 def alphabet(ref, task):
     vals = getattr(alpha, task["extra"].get("values", "VALUES_CORE"))
     ev = alpha.nav_events(ref) + alpha.mutator_events(ref, vals, rich=task["extra"].get("rich", True))
+    if task["extra"].get("faults") and ref.disk[0] is not env.ABSENT:
+        # a mutator whose save fails once (ENOSPC at the atomic replace), through the root and through the first
+        # retained child: the NEXT mutators through the very same objects must write through again
+        for h in ref.attached_handles()[:2]:
+            if ref.handle_kind(h) == "dict":
+                ev.append(("fop", h, "setitem", ("f", 1)))
+            else:
+                ev.append(("fop", h, "append", ("f",)))
     alt = ALT[ref.rootkind]
     if not model.exact_eq(ref.disk[0], alt):
         # no read is inserted after it: the next mutator itself has to notice (and must not skip or mis-merge its write)
@@ -57,12 +66,13 @@ def plan(tier, seed):
         k = env.kind_of(c)
         for nm, init in (("empty", env.ABSENT), ("nested", alpha.init_for(k))):
             cfg = seq.Config(c, initial=(init,), label=c)
+            faults = env.family_of(c) in env.JSON_FAMILIES  # default write mode = atomic replace
             if tier == "quick":
-                depth, extra = 2, {"values": "VALUES_MIN", "rich": True}
+                depth, extra = 2, {"values": "VALUES_MIN", "rich": True, "faults": faults}
             else:
-                depth, extra = 3, {"values": "VALUES_MIN", "rich": True}
+                depth, extra = 3, {"values": "VALUES_MIN", "rich": True, "faults": faults}
                 if c in ("JSONDict", "JSONList"):
-                    extra = {"values": "VALUES_CORE", "rich": True}
+                    extra = {"values": "VALUES_CORE", "rich": True, "faults": faults}
             if tier == "quick" and c in ("JSONDict", "JSONList", "MemoryBufferedJSONDict", "BufferedJSONList") and nm == "nested":
                 depth = 3
             kw = dict(label="%s/%s/d%d" % (c, nm, depth), cfg=cfg, alphabet="alphabet", depth=depth,
